@@ -152,68 +152,69 @@ theorem takeUntil_closed (met : Nat → Bool) (n : Nat) (l : List Tbl) (hnd : l.
 /-- levels that share no table -/
 abbrev Apart (l1 l2 : List Tbl) : Prop := ∀ x ∈ l1, ∀ y ∈ l2, x ≠ y
 
-theorem majorPick_sub (met : Nat → Bool) (n : Nat) (ls : List (List Tbl)) :
-    ∀ t ∈ majorPick met n ls, ∃ l ∈ ls, t ∈ l := by
+theorem majorPickWith_sub (order : List Tbl → List Tbl) (hp : ∀ l, (order l).Perm l) (met : Nat → Bool) (n : Nat)
+    (ls : List (List Tbl)) : ∀ t ∈ majorPickWith order met n ls, ∃ l ∈ ls, t ∈ l := by
   induction ls generalizing n with
   | nil => intro t ht; cases ht
   | cons l ls ih =>
     intro t ht
-    unfold majorPick at ht
+    unfold majorPickWith at ht
     simp only at ht
     split at ht
-    · exact ⟨l, List.mem_cons_self, mem_sortByAge.mp (takeUntil_sub _ _ _ t ht)⟩
+    · exact ⟨l, List.mem_cons_self, (hp _).mem_iff.mp (takeUntil_sub _ _ _ t ht)⟩
     · cases List.mem_append.mp ht with
-      | inl h => exact ⟨l, List.mem_cons_self, mem_sortByAge.mp (takeUntil_sub _ _ _ t h)⟩
+      | inl h => exact ⟨l, List.mem_cons_self, (hp _).mem_iff.mp (takeUntil_sub _ _ _ t h)⟩
       | inr h =>
         obtain ⟨l', hl', ht'⟩ := ih _ t h
         exact ⟨l', List.mem_cons_of_mem _ hl', ht'⟩
 
 /-- a table of a level is only picked after every level visited earlier was taken entirely -/
-theorem majorPick_closed (met : Nat → Bool) (n : Nat) (ls : List (List Tbl)) (hap : ls.Pairwise Apart) :
+theorem majorPickWith_closed (order : List Tbl → List Tbl) (hp : ∀ l, (order l).Perm l) (met : Nat → Bool) (n : Nat)
+    (ls : List (List Tbl)) (hap : ls.Pairwise Apart) :
     ls.Pairwise (fun earlier later =>
-      (∃ t ∈ later, t ∈ majorPick met n ls) → ∀ t ∈ earlier, t ∈ majorPick met n ls) := by
+      (∃ t ∈ later, t ∈ majorPickWith order met n ls) → ∀ t ∈ earlier, t ∈ majorPickWith order met n ls) := by
   induction ls generalizing n with
   | nil => exact List.Pairwise.nil
   | cons l ls ih =>
     have ⟨hap1, hap2⟩ := List.pairwise_cons.mp hap
-    unfold majorPick
+    unfold majorPickWith
     simp only
     split
     · -- the goal was met inside `l`: nothing of a later level is picked
-      have hnone : ∀ later ∈ ls, ¬ ∃ t ∈ later, t ∈ (takeUntil met n (sortByAge l)).1 := by
+      have hnone : ∀ later ∈ ls, ¬ ∃ t ∈ later, t ∈ (takeUntil met n (order l)).1 := by
         rintro later hl ⟨t, ht, htp⟩
-        exact hap1 later hl t (mem_sortByAge.mp (takeUntil_sub _ _ _ t htp)) t ht rfl
+        exact hap1 later hl t ((hp _).mem_iff.mp (takeUntil_sub _ _ _ t htp)) t ht rfl
       refine List.pairwise_cons.mpr ⟨fun later hl hex => absurd hex (hnone later hl), ?_⟩
       apply pairwise_of_forall_right
       intro later hl earlier hex
       exact absurd hex (hnone later hl)
     · rename_i hm
-      have hm' : (takeUntil met n (sortByAge l)).2 = false := by simpa using hm
-      have hall := takeUntil_all met n (sortByAge l) hm'
+      have hm' : (takeUntil met n (order l)).2 = false := by simpa using hm
+      have hall := takeUntil_all met n (order l) hm'
       refine List.pairwise_cons.mpr ⟨?_, ?_⟩
       · intro later _ _ t ht
         apply List.mem_append_left
-        rw [hall]; exact mem_sortByAge.mpr ht
-      · refine List.Pairwise.imp_of_mem ?_ (ih (n + (takeUntil met n (sortByAge l)).1.length) hap2)
+        rw [hall]; exact (hp _).mem_iff.mpr ht
+      · refine List.Pairwise.imp_of_mem ?_ (ih (n + (takeUntil met n (order l)).1.length) hap2)
         intro earlier later _ hlater hab hex t ht
         obtain ⟨x, hx, hxp⟩ := hex
         cases List.mem_append.mp hxp with
         | inl h =>
-          exact absurd rfl (hap1 later hlater x (mem_sortByAge.mp (takeUntil_sub _ _ _ x h)) x hx)
+          exact absurd rfl (hap1 later hlater x ((hp _).mem_iff.mp (takeUntil_sub _ _ _ x h)) x hx)
         | inr h => exact List.mem_append_right _ (hab ⟨x, hx, h⟩ t ht)
 
 /-- inside every level the picked tables are closed towards the older ones (in age order) -/
-theorem majorPick_age_closed (met : Nat → Bool) (n : Nat) (ls : List (List Tbl)) (hap : ls.Pairwise Apart)
-    (hnd : ∀ l ∈ ls, l.Nodup) :
-    ∀ l ∈ ls, (sortByAge l).Pairwise (fun a b => b ∈ majorPick met n ls → a ∈ majorPick met n ls) := by
+theorem majorPickWith_age_closed (order : List Tbl → List Tbl) (hp : ∀ l, (order l).Perm l) (met : Nat → Bool) (n : Nat)
+    (ls : List (List Tbl)) (hap : ls.Pairwise Apart) (hnd : ∀ l ∈ ls, l.Nodup) :
+    ∀ l ∈ ls, (order l).Pairwise (fun a b => b ∈ majorPickWith order met n ls → a ∈ majorPickWith order met n ls) := by
   induction ls generalizing n with
   | nil => intro l hl; cases hl
   | cons l0 ls ih =>
     have ⟨hap1, hap2⟩ := List.pairwise_cons.mp hap
-    have hnd0 : (sortByAge l0).Nodup := (sortByAge_perm l0).nodup_iff.mpr (hnd l0 List.mem_cons_self)
-    have hclosed0 := takeUntil_closed met n (sortByAge l0) hnd0
+    have hnd0 : (order l0).Nodup := (hp l0).nodup_iff.mpr (hnd l0 List.mem_cons_self)
+    have hclosed0 := takeUntil_closed met n (order l0) hnd0
     intro l hl
-    unfold majorPick
+    unfold majorPickWith
     simp only
     cases hl with
     | head =>
@@ -224,20 +225,23 @@ theorem majorPick_age_closed (met : Nat → Bool) (n : Nat) (ls : List (List Tbl
         cases List.mem_append.mp hbp with
         | inl h => exact List.mem_append_left _ (hab h)
         | inr h =>
-          obtain ⟨l', hl', hbl'⟩ := majorPick_sub _ _ _ b h
-          exact absurd rfl (hap1 l' hl' b (mem_sortByAge.mp hb) b hbl')
+          obtain ⟨l', hl', hbl'⟩ := majorPickWith_sub order hp _ _ _ b h
+          exact absurd rfl (hap1 l' hl' b ((hp _).mem_iff.mp hb) b hbl')
     | tail _ hl =>
       split
       · apply List.pairwise_of_forall_mem_list
         intro a _ b hb hbp
-        exact absurd rfl (hap1 l hl b (mem_sortByAge.mp (takeUntil_sub _ _ _ b hbp)) b (mem_sortByAge.mp hb))
-      · refine List.Pairwise.imp_of_mem ?_ (ih (n + (takeUntil met n (sortByAge l0)).1.length) hap2
+        exact absurd rfl (hap1 l hl b ((hp _).mem_iff.mp (takeUntil_sub _ _ _ b hbp)) b ((hp _).mem_iff.mp hb))
+      · refine List.Pairwise.imp_of_mem ?_ (ih (n + (takeUntil met n (order l0)).1.length) hap2
           (fun x hx => hnd x (List.mem_cons_of_mem _ hx)) l hl)
         intro a b _ hb hab hbp
         cases List.mem_append.mp hbp with
         | inl h =>
-          exact absurd rfl (hap1 l hl b (mem_sortByAge.mp (takeUntil_sub _ _ _ b h)) b (mem_sortByAge.mp hb))
+          exact absurd rfl (hap1 l hl b ((hp _).mem_iff.mp (takeUntil_sub _ _ _ b h)) b ((hp _).mem_iff.mp hb))
         | inr h => exact List.mem_append_right _ (hab h)
+
+theorem majorPick_sub (met : Nat → Bool) (n : Nat) (ls : List (List Tbl)) :
+    ∀ t ∈ majorPick met n ls, ∃ l ∈ ls, t ∈ l := majorPickWith_sub sortByAge sortByAge_perm met n ls
 
 /-! ## distinct ids: removal by id is removal of exactly the picked tables -/
 
@@ -317,7 +321,7 @@ theorem merge_order_irrelevant {L : Levels} (hv : WeakValid L) (hid : (L.flatten
   rw [bestHit_eq_firstHit hna hm, bestHit_eq_firstHit hna (fun _ => Iff.rfl)]
 
 /-- a set of picked tables with the shape all three branches of the compactor produce -/
-theorem safe_of_picked {L : Levels} {ts : List Tbl} {lvl : Nat} (o : Oracle)
+theorem struct_of_picked {L : Levels} {ts : List Tbl} {lvl : Nat} (o : Oracle)
     (hv : WeakValid L) (hid : (L.flatten.map (·.id)).Nodup)
     (hsub : ∀ t ∈ ts, t ∈ L.flatten)
     (h1 : 1 ≤ lvl) (h2 : lvl < L.length)
@@ -325,13 +329,13 @@ theorem safe_of_picked {L : Levels} {ts : List Tbl} {lvl : Nat} (o : Oracle)
     (hbelow : ∀ i, lvl < i → ∀ t ∈ L.getD i [], t ∉ ts)
     (hl0 : (L.headD []).Pairwise (fun older newer => newer ∈ ts → older ∉ ts → DisjointKeys newer.run older.run))
     (hclosed : ∀ i j, i < j → j < lvl → (∃ t ∈ L.getD i [], t ∈ ts) → ∀ t ∈ L.getD j [], t ∈ ts) :
-    SafeCS L (ts.map (·.id)) lvl (mergeWrite o ts) := by
+    StructOK L (ts.map (·.id)) lvl (mergeWrite o ts) := by
   have hhead : ∀ t ∈ L.headD [], t ∈ L.flatten := by
     intro t ht
     cases L with
     | nil => cases ht
     | cons l0 D => exact List.mem_flatten.mpr ⟨l0, List.mem_cons_self, ht⟩
-  apply safe_of_structure hv h1 h2
+  refine ⟨h1, h2, ?_, ?_, ?_, ?_, ?_, ?_⟩
   · intro t ht; exact (rmP_iff hid hsub (getD_mem_flatten ht)).mpr (htarget t ht)
   · intro i hi t ht; exact rmP_false hid hsub (getD_mem_flatten ht) (hbelow i hi t ht)
   · refine List.Pairwise.imp_of_mem ?_ hl0
@@ -354,8 +358,8 @@ theorem headD_eq_getD (L : Levels) : L.headD [] = L.getD 0 [] := by cases L <;> 
 
 theorem minorL0_safe {L : Levels} (o : Oracle) (hv : WeakValid L) (hid : (L.flatten.map (·.id)).Nodup)
     (h2 : 2 ≤ L.length) :
-    SafeCS L ((L.getD 0 [] ++ L.getD 1 []).map (·.id)) 1 (mergeWrite o (L.getD 0 [] ++ L.getD 1 [])) := by
-  apply safe_of_picked o hv hid
+    StructOK L ((L.getD 0 [] ++ L.getD 1 []).map (·.id)) 1 (mergeWrite o (L.getD 0 [] ++ L.getD 1 [])) := by
+  apply struct_of_picked o hv hid
   · intro t ht
     cases List.mem_append.mp ht with
     | inl h => exact getD_mem_flatten h
@@ -375,7 +379,7 @@ theorem minorL0_safe {L : Levels} (o : Oracle) (hv : WeakValid L) (hid : (L.flat
 
 theorem minorDeep_safe {L : Levels} (o : Oracle) (hv : WeakValid L) (hid : (L.flatten.map (·.id)).Nodup)
     (fuel cur : Nat) (hcur : 1 ≤ cur) {cs : ChangeSet} {c' : Compactor}
-    (h : minorDeep L o fuel cur = (some cs, c')) : SafeCS L cs.rm cs.lvl cs.add := by
+    (h : minorDeep L o fuel cur = (some cs, c')) : StructOK L cs.rm cs.lvl cs.add := by
   induction fuel generalizing cur with
   | zero => simp [minorDeep] at h
   | succ fuel ih =>
@@ -386,9 +390,9 @@ theorem minorDeep_safe {L : Levels} (o : Oracle) (hv : WeakValid L) (hid : (L.fl
       · simp only [Prod.mk.injEq, Option.some.injEq] at h
         obtain ⟨hcs, _⟩ := h
         subst hcs
-        show SafeCS L ((L.getD cur [] ++ L.getD (cur + 1) []).map (·.id)) (cur + 1)
+        show StructOK L ((L.getD cur [] ++ L.getD (cur + 1) []).map (·.id)) (cur + 1)
           (mergeWrite o (L.getD cur [] ++ L.getD (cur + 1) []))
-        apply safe_of_picked o hv hid
+        apply struct_of_picked o hv hid
         · intro t ht
           cases List.mem_append.mp ht with
           | inl h => exact getD_mem_flatten h
@@ -420,13 +424,14 @@ theorem minorDeep_safe {L : Levels} (o : Oracle) (hv : WeakValid L) (hid : (L.fl
 theorem getLastD_eq_getD (L : Levels) : L.getLastD [] = L.getD (L.length - 1) [] := by
   rw [List.getLastD_eq_getLast?, List.getLast?_eq_getElem?, List.getD_eq_getElem?_getD]
 
-theorem major_safe {L : Levels} (o : Oracle) (hv : WeakValid L) (hid : (L.flatten.map (·.id)).Nodup)
-    (hage : L0KeyAgeOrdered L) (h2 : 2 ≤ L.length) :
-    SafeCS L (majorCompaction L o).rm (majorCompaction L o).lvl (majorCompaction L o).add := by
-  unfold majorCompaction
+theorem major_safe_with {L : Levels} (order : List Tbl → List Tbl) (ho : OrderOK order) (o : Oracle) (hv : WeakValid L)
+    (hid : (L.flatten.map (·.id)).Nodup) (hage : L0KeyAgeOrdered L) (h2 : 2 ≤ L.length) :
+    StructOK L (majorCompactionWith order L o).rm (majorCompactionWith order L o).lvl
+      (majorCompactionWith order L o).add := by
+  unfold majorCompactionWith
   simp only
   rw [getLastD_eq_getD]
-  generalize hpk : majorPick o.goalMet 0 L.dropLast.reverse = picked
+  generalize hpk : majorPickWith order o.goalMet 0 L.dropLast.reverse = picked
   have hlenU : L.dropLast.length = L.length - 1 := List.length_dropLast
   have hupper : ∀ i (hi : i < L.dropLast.length), L.dropLast[i] = L.getD i [] := by
     intro i hi
@@ -444,7 +449,7 @@ theorem major_safe {L : Levels} (o : Oracle) (hv : WeakValid L) (hid : (L.flatte
   have hpsub : ∀ t ∈ picked, ∃ i, i < L.length - 1 ∧ t ∈ L.getD i [] := by
     intro t ht
     rw [← hpk] at ht
-    obtain ⟨l, hl, htl⟩ := majorPick_sub _ _ _ t ht
+    obtain ⟨l, hl, htl⟩ := majorPickWith_sub order ho.perm _ _ _ t ht
     obtain ⟨i, hi, rfl⟩ := List.mem_iff_getElem.mp (List.mem_reverse.mp hl)
     exact ⟨i, by omega, by rw [← hupper i hi]; exact htl⟩
   have hnotbase : ∀ i, i < L.length - 1 → ∀ t ∈ L.getD i [], t ∈ picked ++ L.getD (L.length - 1) [] → t ∈ picked := by
@@ -452,7 +457,7 @@ theorem major_safe {L : Levels} (o : Oracle) (hv : WeakValid L) (hid : (L.flatte
     cases List.mem_append.mp hts with
     | inl h => exact h
     | inr h => exact absurd rfl (getD_apart hid (show i ≠ L.length - 1 by omega) t ht t h)
-  apply safe_of_picked o hv hid
+  apply struct_of_picked o hv hid
   · intro t ht
     cases List.mem_append.mp ht with
     | inl h => obtain ⟨i, _, hti⟩ := hpsub t h; exact getD_mem_flatten hti
@@ -468,9 +473,9 @@ theorem major_safe {L : Levels} (o : Oracle) (hv : WeakValid L) (hid : (L.flatte
     have h0 : 0 < L.dropLast.length := by omega
     have hmem0 : L.getD 0 [] ∈ L.dropLast.reverse := by
       rw [List.mem_reverse, ← hupper 0 h0]; exact List.getElem_mem h0
-    have hcl := majorPick_age_closed o.goalMet 0 L.dropLast.reverse hapU hndU (L.getD 0 []) hmem0
+    have hcl := majorPickWith_age_closed order ho.perm o.goalMet 0 L.dropLast.reverse hapU hndU (L.getD 0 []) hmem0
     rw [hpk] at hcl
-    have hboth := (sortByAge_sorted (L.getD 0 [])).and hcl
+    have hboth := (ho.sorted (L.getD 0 [])).and hcl
     have hage' := hage
     unfold L0KeyAgeOrdered at hage'
     rw [headD_eq_getD] at hage'
@@ -481,14 +486,14 @@ theorem major_safe {L : Levels} (o : Oracle) (hv : WeakValid L) (hid : (L.flatte
     intro hnd
     have hlt : age a < age b := hab (fun hd => hnd (fun eb heb ea hea hk => hd ea hea eb heb hk.symm))
     have hbp := hnotbase 0 (by omega) b hb hbts
-    rcases pairwise_or hboth (mem_sortByAge.mpr ha) (mem_sortByAge.mpr hb) with h | h | h
+    rcases pairwise_or hboth ((ho.perm _).mem_iff.mpr ha) ((ho.perm _).mem_iff.mpr hb) with h | h | h
     · subst h; omega
     · exact hats (List.mem_append_left _ (h.2 hbp))
     · have := h.1; omega
   · intro i j hij hj hex t ht
     obtain ⟨x, hx, hxs⟩ := hex
     have hxp := hnotbase i (by omega) x hx hxs
-    have hcl := majorPick_closed o.goalMet 0 L.dropLast.reverse hapU
+    have hcl := majorPickWith_closed order ho.perm o.goalMet 0 L.dropLast.reverse hapU
     rw [List.pairwise_reverse, hpk] at hcl
     have hi' : i < L.dropLast.length := by omega
     have hj' : j < L.dropLast.length := by omega
@@ -496,17 +501,20 @@ theorem major_safe {L : Levels} (o : Oracle) (hv : WeakValid L) (hid : (L.flatte
     rw [hupper i hi', hupper j hj'] at this
     exact List.mem_append_left _ (this ⟨x, hx, hxp⟩ t ht)
 
-/-- **every change set the compactor produces is safe** -/
-theorem compact_safe {L : Levels} {c : Compactor} {o : Oracle} (hv : WeakValid L)
-    (hid : (L.flatten.map (·.id)).Nodup) (hage : L0KeyAgeOrdered L) (h2 : 2 ≤ L.length)
-    {cs : ChangeSet} {c' : Compactor} (h : compact c L o = (some cs, c')) : SafeCS L cs.rm cs.lvl cs.add := by
-  unfold compact at h
+/-- every change set the compactor produces has the structural shape -/
+theorem orderOK_sortByAge : OrderOK sortByAge := ⟨sortByAge_perm, sortByAge_sorted⟩
+
+theorem compactWith_struct {L : Levels} {c : Compactor} {o : Oracle} (order : List Tbl → List Tbl) (ho : OrderOK order)
+    (hv : WeakValid L) (hid : (L.flatten.map (·.id)).Nodup) (hage : L0KeyAgeOrdered L) (h2 : 2 ≤ L.length)
+    {cs : ChangeSet} {c' : Compactor} (h : compactWith order c L o = (some cs, c')) :
+    StructOK L cs.rm cs.lvl cs.add := by
+  unfold compactWith at h
   split at h
   · simp at h
   · split at h
     · simp only [Prod.mk.injEq, Option.some.injEq] at h
       rw [← h.1]
-      exact major_safe o hv hid hage h2
+      exact major_safe_with order ho o hv hid hage h2
     · unfold minorCompaction at h
       split at h
       · simp only [Prod.mk.injEq, Option.some.injEq] at h
@@ -514,6 +522,17 @@ theorem compact_safe {L : Levels} {c : Compactor} {o : Oracle} (hv : WeakValid L
         exact minorL0_safe o hv hid h2
       · rename_i hc
         exact minorDeep_safe o hv hid L.length c.minorLevel (by omega) h
+
+theorem compact_struct {L : Levels} {c : Compactor} {o : Oracle} (hv : WeakValid L)
+    (hid : (L.flatten.map (·.id)).Nodup) (hage : L0KeyAgeOrdered L) (h2 : 2 ≤ L.length)
+    {cs : ChangeSet} {c' : Compactor} (h : compact c L o = (some cs, c')) : StructOK L cs.rm cs.lvl cs.add :=
+  compactWith_struct sortByAge orderOK_sortByAge hv hid hage h2 h
+
+/-- **every change set the compactor produces is safe** -/
+theorem compact_safe {L : Levels} {c : Compactor} {o : Oracle} (hv : WeakValid L)
+    (hid : (L.flatten.map (·.id)).Nodup) (hage : L0KeyAgeOrdered L) (h2 : 2 ≤ L.length)
+    {cs : ChangeSet} {c' : Compactor} (h : compact c L o = (some cs, c')) : SafeCS L cs.rm cs.lvl cs.add :=
+  safe_of_structOK hv (compact_struct hv hid hage h2 h)
 
 /-! ## where the level-0 age hypothesis comes from -/
 
